@@ -201,6 +201,9 @@ func (g *ExecutionGraph) setupRetry() error {
 	}
 	for len(frontier) > 0 {
 		var next []int
+		// A step reachable over several paths enters a level once, not once
+		// per path: the walk is otherwise exponential in dense graphs.
+		queued := map[int]bool{}
 		for _, u := range frontier {
 			// A node recorded as running belongs to a run whose process died
 			// before the node finished: it is unfinished as well.
@@ -214,7 +217,10 @@ func (g *ExecutionGraph) setupRetry() error {
 				if retry[u] {
 					retry[v] = true
 				}
-				next = append(next, v)
+				if !queued[v] {
+					queued[v] = true
+					next = append(next, v)
+				}
 			}
 		}
 		frontier = next
